@@ -376,6 +376,11 @@ def fault_unit(run, cases, rng, per_case=3, tag="faults", max_points=40):
                 pr = [l for l in traces.projection_noreads(e) if not l.startswith('{"e":"ReadFault"')]
                 cl = [l for l in cleanproj]
                 a_ = [l for l in pr if not l.startswith('{"e":"Counts"')]; b_ = [l for l in cl if not l.startswith('{"e":"Counts"')]
+                # (how much text sits in a small buffer depends on the portions the reads delivered, and with it whether
+                #  yyunput() / a REJECT scanner meets the documented capacity errors: such an ending is judged by the
+                #  trace specification alone, the events before it must still agree)
+                if a_ and a_[-1].startswith('{"e":"Fatal"') and ('"pushback"' in a_[-1] or '"rejectoverflow"' in a_[-1]):
+                    b_ = b_[:len(a_) - 1]; a_ = a_[:-1]
                 if a_ != b_:
                     k_ = next((i for i in range(min(len(a_), len(b_))) if a_[i] != b_[i]), min(len(a_), len(b_)))
                     pr = a_[max(0, k_ - 3):k_ + 3]; cl = b_[max(0, k_ - 3):k_ + 3]
